@@ -87,6 +87,13 @@ class Armorable(metaclass=abc.ABCMeta):
         raise TypeError("Expected: ASCII input of type str, bytes, or bytearray")  # pragma: no cover
 
     @staticmethod
+    def is_cleartext_framed(text):
+        if isinstance(text, (bytes, bytearray)):
+            return bytes(text).lstrip().startswith(b'-----BEGIN PGP SIGNED MESSAGE-----')
+
+        return isinstance(text, str) and text.lstrip().startswith('-----BEGIN PGP SIGNED MESSAGE-----')
+
+    @staticmethod
     def is_armor(text):
         """
         Whether the ``text`` provided is an ASCII-armored PGP block.
@@ -112,8 +119,16 @@ class Armorable(metaclass=abc.ABCMeta):
         """
         m = {'magic': None, 'headers': None, 'body': bytearray(), 'crc': None}
         if not Armorable.is_ascii(text):
-            m['body'] = bytearray(text)
-            return m
+            if not Armorable.is_cleartext_framed(text):
+                m['body'] = bytearray(text)
+                return m
+
+            # the text of a cleartext signed message need not be ASCII (RFC 4880, section 7: UTF-8 unless a Charset header says otherwise)
+            if isinstance(text, (bytes, bytearray)):
+                try:
+                    text = text.decode('utf-8')
+                except UnicodeDecodeError:
+                    pass
 
         if isinstance(text, (bytes, bytearray)):  # pragma: no cover
             text = text.decode('latin-1')
@@ -197,7 +212,12 @@ class Armorable(metaclass=abc.ABCMeta):
     def from_blob(cls, blob):
         obj = cls()
         if (not isinstance(blob, bytes)) and (not isinstance(blob, bytearray)):
-            po = obj.parse(bytearray(blob, 'latin-1'))
+            if Armorable.is_cleartext_framed(blob) and not Armorable.is_ascii(blob):
+                # keep the characters of a cleartext signed message as they are
+                po = obj.parse(blob)
+
+            else:
+                po = obj.parse(bytearray(blob, 'latin-1'))
 
         else:
             po = obj.parse(bytearray(blob))
